@@ -126,3 +126,55 @@ Example C07_no_trace_any_cache_example :
 Proof. exact (conj nx_D (conj nx_side (conj ex3_valid (conj nx_ok (conj nx_has_noise nx_no_trace_by_evaluation))))). Qed.
 
 Print Assumptions C07_no_trace_any_cache.
+
+(* ================= Round 3 (worker link): no trace across epochs, hypotheses on the INPUT =================
+   C07_no_trace_input_level (proofs/LinkXCor.v: link_x_noise_invisible, from LinkEpochsX.link_x): a run over
+   several epochs under an arbitrary policy, with noise before / between / after the calls of every event --
+   speculative Builds of arbitrary events, Process calls that the application's guard stops, probes, restarts;
+   also after a sealing block -- and with events INSIDE the stream that the reference rejects for their frame
+   (code 1: a failed Process; with or without a preceding Build) or does not offer (code 2), gives, once the
+   entries of the restarts are removed, exactly the observations of the run of the same schedules without
+   any noise: the same verdict and Build frame for every event (accepted, rejected or skipped alike -- "later
+   events are rejected identically"), the same decided frames, blocks, cheaters, seals, validator sets.
+   Nothing is assumed about observed outcomes: epochs_ok_x (LinkEpochsX.v) speaks about the input only
+   (reference codes 0/1/2, forkers < 1/3, ids: not temporary Build ids, an id rejected for its frame does not
+   come back in the epoch; LinkReject.noise_in for the noise) and is decidable (LinkXCheck.epochs_ok_xb).
+   The observation-level theorem C07_no_trace_any_cache above stays as it is: it also covers noise Process
+   calls on arbitrary aevents and the re-submission of a rejected event under the same id. *)
+From LV Require Import proofs.LinkReject proofs.LinkX proofs.LinkEpochsX proofs.LinkXCheck proofs.LinkXCor proofs.LinkXExample proofs.LinkXCorExample.
+
+Theorem C07_no_trace_input_level : forall cap lam pol vals Ss K,
+  vals <> [] -> epochs_ok_x pol K vals 1 Ss -> N.of_nat (total_builds Ss) <= K -> K < 2 ^ 192 ->
+  map strip8 (model_epochs_x cap lam pol (start 1 vals) vals 1 Ss) = model_epochs_x cap lam pol (start 1 vals) vals 1 (map clean_S Ss).
+Proof. exact link_x_noise_invisible. Qed.
+
+(* the rejection itself is derived: reference code 1 => the model's Process returns ErrWrongFrame and keeps the
+   simulation (with the rejected id added to the set of spent ids) *)
+Theorem C07_rejected_by_the_rules_is_rejected_by_the_code :
+  forall cap pol ep lam vals, vals_ok vals -> forall K, K < 2 ^ 192 -> forall (J : N -> Prop), (forall a, J a -> id_fresh K a) ->
+  forall i T Dr B e, LinkStep.Sim ep lam vals J K i T Dr B -> BftMain.few_forkers vals T ->
+  BftGraph.parents_known T e -> nlookup (eid (fe e)) T = None -> (ecr (fe e) < length vals)%nat -> BftGraph.ev_wf T e ->
+  r_frame_ok vals T (mk_node (length vals) T e) = false -> id_fresh K (eid (fe e)) -> ~ J (eid (fe e)) ->
+  exists i', step cap pol sample i (OpP (to_aevent ep lam vals e)) = (ObsP (Some EWrongFrame) [] (l_ldf (i_st i)) (l_epoch (i_st i)), i', false) /\
+    LinkStep.Sim ep lam vals (fun a => J a \/ a = eid (fe e)) K i' T Dr B /\ l_ctr (i_st i') = l_ctr (i_st i).
+Proof. exact reject_step. Qed.
+
+Example C07_no_trace_input_level_example :
+  epochs_ok_xb xx_pol 400 ex_vals 1 xx_Ss = true /\ xx_Ss <> map clean_S xx_Ss /\
+  map (fun r => length (fst (fst r))) (model_epochs_x 3 xx_lam xx_pol (start 1 ex_vals) ex_vals 1 xx_Ss) = [59; 50; 50]%nat /\
+  map (fun r => length (fst (fst r))) (model_epochs_x 3 xx_lam xx_pol (start 1 ex_vals) ex_vals 1 (map clean_S xx_Ss)) = [52; 48; 48]%nat /\
+  map strip8 (model_epochs_x 3 xx_lam xx_pol (start 1 ex_vals) ex_vals 1 xx_Ss) =
+  model_epochs_x 3 xx_lam xx_pol (start 1 ex_vals) ex_vals 1 (map clean_S xx_Ss).
+Proof. exact (conj xx_input_ok (conj (proj1 xx_noise_is_there) (conj (proj1 (proj2 xx_noise_is_there)) (conj (proj2 (proj2 xx_noise_is_there)) xx_noise_invisible)))). Qed.
+
+Print Assumptions C07_no_trace_input_level.
+Print Assumptions C07_rejected_by_the_rules_is_rejected_by_the_code.
+(* the hypotheses of C07_rejected_by_the_rules_is_rejected_by_the_code hold at genesis for a first event that
+   claims frame 2; the model's answer by evaluation *)
+From LV Require Import proofs.LinkCodesExample.
+Example C07_rejection_example :
+  (LinkStep.Sim 1 (fun _ => 0) ex2_vals (fun _ => False) 48 (start 1 ex2_vals) [] [] [] /\ BftMain.few_forkers ex2_vals [] /\
+   BftGraph.parents_known [] rj_e /\ nlookup (eid (fe rj_e)) [] = None /\ (ecr (fe rj_e) < length ex2_vals)%nat /\ BftGraph.ev_wf [] rj_e /\
+   r_frame_ok ex2_vals [] (mk_node (length ex2_vals) [] rj_e) = false /\ id_fresh 48 (eid (fe rj_e))) /\
+  fst (fst (step 3 [] sample (start 1 ex2_vals) (OpP (to_aevent 1 (fun _ => 0) ex2_vals rj_e)))) = ObsP (Some EWrongFrame) [] 0 1.
+Proof. exact (conj rj_hyps rj_rejected). Qed.
